@@ -105,6 +105,7 @@ theorem wal_read_frame_total (crc : List Nat → Nat) (b : Buf) :
     (by simpa [FileHdr.WAL_FRAME_HEADER_SIZE, FileHdr.PAGE_SIZE] using hl2))
   intro _ _
   apply bind_safe (ensure_safe _ _); intro _ _
+  apply bind_safe (ensure_safe _ _); intro _ _
   rfl
 
 /-- an accepted frame whose `page_no` is `u32::MAX` makes `Wal::recover` overflow `page_no + 1` -/
